@@ -265,6 +265,7 @@ func TestCheck(t *testing.T) {
 	grpcOverlap(r)
 	grpcConcurrentUploads(r)
 	recordedTime(r)
+	recordedTimeDoQ(r)
 	stress(r)
 	linearizable(r)
 
@@ -281,6 +282,7 @@ func TestCheck(t *testing.T) {
 	r.Require("grpc_overlapping_refreshes", 20)
 	r.Require("grpc_concurrent_upload_rounds", 3)
 	r.Require("recorded_time_queries_after_an_idle_gap_on_a_persistent_connection", 9)
+	r.Require("recorded_time_doq_overlapping_stream_pairs", 4)
 }
 
 func scripted(r *vkit.Run) {
